@@ -40,6 +40,7 @@ type KnownFinding struct {
 	Harness  string            `json:"harness,omitempty"`
 	AssertID string            `json:"assert_id,omitempty"`
 	Where    map[string]string `json:"where,omitempty"` // variable -> "=v" | "!=v" | "<v" | ">v"
+	Note     string            `json:"note,omitempty"`  // the harness must have classified the input with this note
 	What     string            `json:"what"`
 	Commit   string            `json:"commit,omitempty"`
 }
@@ -447,6 +448,17 @@ func matchKnown(v *Violation, prop string, known []KnownFinding) string {
 			continue
 		}
 		ok := true
+		if k.Note != "" {
+			has := false
+			for _, n := range v.Notes {
+				if n == k.Note {
+					has = true
+				}
+			}
+			if !has {
+				continue
+			}
+		}
 		for name, cond := range k.Where {
 			val, has := v.Model[name]
 			if !has {
